@@ -81,8 +81,18 @@ def resolve(prog):
     PENDF = "self.%s" % F.pending
 
 
+PROG = None
+PROBLEMS = []
+ANALYSED = {"libp2p_kad::kbucket::bucket::KBucket::" + x for x in ("insert", "remove", "apply_pending", "update", "status", "get_mut", "position")}
+
+
 def nodes_calls(b, m):
-    return lk.recv_calls(b, r"^std::vec::Vec::%s$" % m, NODES)
+    """Vec::<m>(self.nodes, ..) sites of b, including calls of private helpers that perform exactly one such call on every path"""
+    return lk.with_helpers(PROG, b, lambda x: lk.recv_calls(x, r"^std::vec::Vec::%s$" % m, NODES), PROBLEMS, ANALYSED)
+
+
+def fx_of(b, field):
+    return lk.with_helpers(PROG, b, lambda x: lk.field_effects(x, field), PROBLEMS, ANALYSED)
 
 
 def fcp_some_edges(b, labels):
@@ -90,7 +100,9 @@ def fcp_some_edges(b, labels):
 
 
 def check(ctx):
-    prog = lk.canon(ctx)
+    global PROG
+    prog = PROG = lk.canon(ctx)
+    del PROBLEMS[:]
     resolve(prog)
     ins = ctx.body(K, KB + r"insert$")
     rem = ctx.body(K, KB + r"remove$")
@@ -104,6 +116,7 @@ def check(ctx):
     check_update(ctx, upd)
     check_table(ctx, prog)
     check_who(ctx, prog)
+    ctx.ob("who", "every helper that mutates the bucket has a path-independent effect (summarised at its call sites)", not PROBLEMS, msg=str(sorted(set(PROBLEMS)))[:400])
 
 
 # ------------------------------------------------------------------------------------------------ insert
@@ -117,7 +130,7 @@ def check_insert(ctx, b):
     STAT = lk.arg_of_type(b, r"NodeStatus$")
     rets = b.return_blocks()
     W = lk.where(b)
-    fx = lk.field_effects(b, F.fcp)
+    fx = fx_of(b, F.fcp)
     pushes, inserts = nodes_calls(b, "push"), nodes_calls(b, "insert")
     grow = pushes + inserts
     ctx.floor("insert", "nodes growth sites", grow, 3)
@@ -155,7 +168,7 @@ def check_insert(ctx, b):
         else:
             ctx.ob("insert", "%s: boundary written %s" % (name, want_set), w == want_set, W, "boundary writes on all paths: %s" % (w,))
     for s in csets:
-        e = b.site_expr(s)
+        e = lk.eff_expr(b, s)
         txt = render(e)
         ok = txt == OR_FORM or (conditional and lk.passes(b, s.bb, no_conn))
         ctx.ob("insert", "Connected: boundary := fcp.or(Some(len))", ok, s.loc(), txt[:160])
@@ -164,10 +177,10 @@ def check_insert(ctx, b):
         ok2 = bool(lens) and bool(pb) and all(b.dominates(l, p) and l != p and l not in b.reachable(b.succ[p]) for l in lens for p in pb)
         ctx.ob("insert", "Connected: len is read before the push", ok2, s.loc(), "len() blocks %s push blocks %s" % (lens, pb))
     for s in [p for p in pushes if p.bb in rc and p.bb not in rd]:
-        ctx.ob("insert", "Connected: pushes the given node", render(b.site_expr(s)[2][1]) == NODE, s.loc(), R(b, s)[:120])
+        ctx.ob("insert", "Connected: pushes the given node", render(lk.eff_expr(b, s)[2][1]) == NODE, s.loc(), R(b, s)[:120])
     ctx.ob("insert", "Connected: appends (no positional insert)", not [s for s in inserts if s.bb in rc and s.bb not in rd], W, "connected nodes go to the end")
     # pending recorded only: full, fcp != Some(0), no pending
-    pend = lk.field_effects(b, F.pending)
+    pend = fx_of(b, F.pending)
     ctx.floor("insert", "pending writes", pend, 1)
     some_disc = lk.rel_edges(b, "^" + re.escape(FCP) + "$", r"^std::option::Option::Some\{0: 0\}$", "!=") | lk.rel_edges(b, "^" + re.escape(FCP) + r"@Some\.0$", r"^0$", "!=")
     for s, k, txt in pend:
@@ -178,14 +191,14 @@ def check_insert(ctx, b):
         ctx.guarded("insert", "pending: only when no pending node exists", s,
                     lambda c, r, l: (l == "false" and r == "std::option::Option::is_some(%s)" % PENDF) or (l == "true" and r == "std::option::Option::is_none(%s)" % PENDF)
                     or (l == "None" and r == "discr(%s)" % PENDF), "self.pending.is_some() is false")
-        e = b.site_expr(s)
+        e = lk.eff_expr(b, s)
         f = dict(e[4][0][1][4]) if e[0] == "agg" and e[3] == "Some" and e[4] and e[4][0][1][0] == "agg" else {}
         ok = (render(f.get(F.p_node, ("unknown", "?"))) == NODE and render(f.get(F.p_status, ("unknown", "?"))).endswith("NodeStatus::Connected{}")
               and render(f.get(F.p_replace, ("unknown", "?"))) == "<web_time::Instant as std::ops::Add>::add(web_time::Instant::now(), self.%s)" % F.timeout)
         ctx.ob("insert", "pending: {node, Connected, now + pending_timeout}", ok, s.loc(), txt[-220:])
     # results
     for variant, want in (("Inserted", (1, 1)), ("Full", (0, 0)), ("Pending", (0, 0))):
-        rs = [s for s in lk.ret_sites(b) if lib.agg_variants(b.site_expr(s), r"bucket::InsertResult$") == [variant]]
+        rs = [s for s in lk.ret_sites(b) if lib.agg_variants(lk.eff_expr(b, s), r"bucket::InsertResult$") == [variant]]
         ctx.floor("insert", "result " + variant, rs, 1)
         got = cnt(b, [0], lib.bbs(rs), grow)
         ctx.ob("insert", "result %s <=> nodes grew %s" % (variant, want), got == want, W, "growth on paths to the result: %s" % (got,))
@@ -214,7 +227,7 @@ def check_insert(ctx, b):
         n_ = cnt(b, none, rets, pushes), cnt(b, none, rets, inserts), cnt(b, none, rets, [s for s, _, _ in fx])
         ctx.ob("insert", "Disconnected,None: one push, boundary untouched", n_ == ((1, 1), (0, 0), (0, 0)), W, "push %s insert %s boundary writes %s" % n_)
     for s in [x for x in inserts if x.bb in rd]:
-        e = b.site_expr(s)
+        e = lk.eff_expr(b, s)
         idx = e[2][1]
         src = render(b.init_expr(idx[1])) if idx[0] == "local" else render(idx)
         ctx.ob("insert", "Disconnected: inserted exactly at the boundary index", src == FCP + "@Some.0", s.loc(), "index = %s" % src)
@@ -232,17 +245,17 @@ def check_remove(ctx, prog, b):
     rm = nodes_calls(b, "remove")
     ctx.floor("remove", "Vec::remove", rm, 1, exact=True)
     ctx.ob("remove", "remove never grows nodes", not (nodes_calls(b, "push") + nodes_calls(b, "insert")), W, "")
-    fx = lk.field_effects(b, F.fcp)
+    fx = fx_of(b, F.fcp)
     ctx.floor("remove", "boundary writes", fx, 2)
     st = b.call_sites(KB + r"status$")
     ctx.floor("remove", "status call", st, 1, exact=True)
     POS = "libp2p_kad::kbucket::bucket::KBucket::position(self, #2)@Some.0"
     for s in rm:
-        e = b.site_expr(s)
+        e = lk.eff_expr(b, s)
         ctx.ob("remove", "removes at position(key)", render(e[2][1]) == POS + ".0", s.loc(), render(e[2][1]))
         ctx.guarded("remove", "removal only if the key was found", s, lambda c, r, l: l == "Some" and r == "discr(libp2p_kad::kbucket::bucket::KBucket::position(self, #2))", "position(key) is Some")
     for s in st:
-        ctx.ob("remove", "status is taken at the removed position", render(b.site_expr(s)[2][1]) == POS, s.loc(), R(b, s)[:160])
+        ctx.ob("remove", "status is taken at the removed position", render(lk.eff_expr(b, s)[2][1]) == POS, s.loc(), R(b, s)[:160])
         after = b.reachable(b.succ[s.bb])
         ok = all(x.bb in after and s.bb not in b.reachable(b.succ[x.bb]) and b.dominates(s.bb, x.bb) for x, _, _ in fx)
         ctx.ob("remove", "status is read before the boundary is adjusted", ok, s.loc(), "status() dominates every boundary write")
@@ -310,7 +323,7 @@ def check_remove(ctx, prog, b):
                 ctx.ob("remove", "Connected: closure tests boundary == removed position", ok, lk.where(cb), str(rs))
                 ctx.ob("remove", "Connected: closure captures the removed position", render(c).endswith("[" + POS + ".0])"), lk.where(cb), render(c)[-140:])
     for s in lk.ret_sites(b):
-        e = b.site_expr(s)
+        e = lk.eff_expr(b, s)
         if e[0] == "agg" and e[3] == "Some":
             tup = dict(e[4][0][1][4]) if e[4][0][1][0] == "agg" else {}
             ok = (render(tup.get("0", ("unknown", "?"))).startswith("std::vec::Vec::remove(self.%s, " % F.nodes)
@@ -327,7 +340,7 @@ def check_apply(ctx, prog, b):
     rm, pushes, inserts = nodes_calls(b, "remove"), nodes_calls(b, "push"), nodes_calls(b, "insert")
     ctx.floor("apply_pending", "evictions (Vec::remove)", rm, 3)
     ctx.floor("apply_pending", "insertions (push/insert)", pushes + inserts, 3)
-    fx = lk.field_effects(b, F.fcp)
+    fx = fx_of(b, F.fcp)
     ctx.floor("apply_pending", "boundary writes", fx, 1)
     take = lk.recv_calls(b, r"Option::take$", r"^self\.%s$" % F.pending)
     ctx.floor("apply_pending", "pending.take()", take, 1, exact=True)
@@ -337,7 +350,7 @@ def check_apply(ctx, prog, b):
     full = lk.hoisted(b, lk.rel_edges(b, LEN, CAP, ">=") - lk.rel_edges(b, LEN, CAP, "=="))
     head = lk.enum_known_edges(b, r"^libp2p_kad::kbucket::bucket::KBucket::status\(self, libp2p_kad::kbucket::bucket::Position::Position\{0: 0\}\)$", NS, ["Connected", "Disconnected"])
     for s in rm:
-        e = b.site_expr(s)
+        e = lk.eff_expr(b, s)
         ctx.ob("apply_pending", "evicts the least-recently connected node (index 0)", lk.const_val(e[2][1]) == 0, s.loc(), "Vec::remove index = %s" % render(e[2][1]))
         ctx.ob("apply_pending", "eviction only after timeout", lk.passes(b, s.bb, expired), s.loc(), "pending.replace <= Instant::now() on every path")
         ctx.ob("apply_pending", "eviction only if bucket full", lk.passes(b, s.bb, full), s.loc(), "nodes.len() >= capacity edge")
@@ -345,12 +358,12 @@ def check_apply(ctx, prog, b):
                "status(Position(0)) == Connected is false on every path")
     for s in pushes + inserts:
         ctx.ob("apply_pending", "direct insertion only after an eviction", b.must_pass_nodes([0], [s.bb], lib.bbs(rm)), s.loc(), "every path to this push/insert passes Vec::remove(nodes, 0)")
-        node = render(b.site_expr(s)[2][-1])
+        node = render(lk.eff_expr(b, s)[2][-1])
         ctx.ob("apply_pending", "inserted node is the pending node", node == PENDT + "." + F.p_node, s.loc(), node)
     hc = tg(head["Connected"])
     got = cnt(b, hc, rets, rm + pushes + inserts + [x for x, _, _ in fx]) if hc else None
     ctx.ob("apply_pending", "head still Connected: bucket unchanged", got == (0, 0), W, str(got))
-    pend = lk.field_effects(b, F.pending)
+    pend = fx_of(b, F.pending)
     restore = [s for s, k, t in pend if k == "set" and t == "std::option::Option::Some{0: %s}" % PENDT]
     ctx.floor("apply_pending", "restore of unexpired pending", restore, 1)
     ee = tg(early)
@@ -375,7 +388,7 @@ def check_apply(ctx, prog, b):
             ctx.ob("apply_pending", "boundary written only in the connected-pending arm", inarm, s.loc(), "%s %s" % (k, t[:120]))
             if not inarm:
                 continue
-            e = b.site_expr(s)
+            e = lk.eff_expr(b, s)
             if k == "set" and not (e[0] == "call" and strip_generics(e[1]).endswith("Option::map_or_else")):
                 # `match fcp { None => Some(len), Some(p) => p.checked_sub(1) }` form: one store per arm
                 P0 = re.escape(FCP + "@Some.0")
@@ -430,7 +443,7 @@ def check_apply(ctx, prog, b):
             ctx.ob("apply_pending", "disconnected pending, none connected: one eviction, one push", a == ((1, 1), (1, 1), (0, 0)), W, "remove %s push %s insert %s" % a)
         B0 = re.escape(FCP + "@Some.0")
         for s in inserts:
-            idx = render(b.site_expr(s)[2][1])
+            idx = render(lk.eff_expr(b, s)[2][1])
             ok = re.match(r"^std::option::Option::(expect|unwrap)\(core::num::checked_sub\(%s, 1\)(, .*)?\)$|^SubWithOverflow\(%s, 1\)\.0$|^Sub\(%s, 1\)$|^core::num::(saturating|wrapping)_sub\(%s, 1\)$" % (B0, B0, B0, B0), idx) is not None
             ctx.ob("apply_pending", "disconnected pending: inserted at boundary - 1 (end of the shifted disconnected prefix)", ok, s.loc(), idx)
             r_in = [x.bb for x in rm if x.bb in b.reachable(some)]
@@ -441,7 +454,7 @@ def check_apply(ctx, prog, b):
     for s in ic:
         ctx.ob("apply_pending", "room: delegated insert only below capacity", lk.passes(b, s.bb, room), s.loc(), "")
         ctx.ob("apply_pending", "room: delegated insert only after timeout", lk.passes(b, s.bb, expired), s.loc(), "pending.replace <= now")
-        e = b.site_expr(s)
+        e = lk.eff_expr(b, s)
         ok = render(e[2][1]) == PENDT + "." + F.p_node and render(e[2][2]) == PENDT + "." + F.p_status
         ctx.ob("apply_pending", "room: inserts the pending node with its own status", bool(ok), s.loc(), R(b, s)[-160:])
     rt = tg(room)
@@ -527,7 +540,7 @@ def check_update(ctx, b):
     if some:
         got = cnt(b, some, b.return_blocks(), ic)
         ctx.ob("update", "a found node is re-inserted exactly once", got == (1, 1), W, str(got))
-    pend = lk.field_effects(b, F.pending)
+    pend = fx_of(b, F.pending)
     ctx.floor("update", "pending := None", pend, 1)
     st = lk.enum_known_edges(b, "^" + STAT + "$", NS, ["Connected", "Disconnected"])
     head = lk.rel_edges(b, "^" + re.escape(RM) + r"@Some\.0\.2(\.0)?$", r"^(libp2p_kad::kbucket::bucket::Position::Position\{0: 0\}|0)$", "==")
@@ -615,32 +628,32 @@ def check_table(ctx, prog):
 
 def check_who(ctx, prog):
     KBP = "libp2p_kad::kbucket::bucket::KBucket::"
-    callers = sorted({lk.root_fn(prog, s.body).npath for s in prog.callers(K, KB + r"insert$")})
-    want = [KBP + "apply_pending", KBP + "update", "libp2p_kad::kbucket::entry::AbsentEntry::insert"]
-    ctx.ob("who", "KBucket::insert called only via AbsentEntry / update / apply_pending", callers == want, msg=str(callers))
+    callers = {lk.root_fn(prog, s.body) for s in prog.callers(K, KB + r"insert$")}
+    want = {KBP + "apply_pending", KBP + "update", "libp2p_kad::kbucket::entry::AbsentEntry::insert"}
+    bad = sorted(c.npath for c in callers if not lk.allowed_fn(prog, K, c, want))
+    ctx.ob("who", "KBucket::insert called only via AbsentEntry / update / apply_pending", not bad and len(callers) >= 3, msg="callers %s; not permitted %s" % (sorted(c.short for c in callers), bad))
     ab = {lk.root_fn(prog, s.body).npath for s in prog.callers(K, r"^libp2p_kad::kbucket::entry::AbsentEntry::new$")}
     ab |= {lk.root_fn(prog, b).npath for b in prog.bodies(K) if b.agg_sites(r"kbucket::entry::AbsentEntry$")}
     ctx.ob("who", "AbsentEntry constructed only by Entry::new (via its constructor)", bool(ab) and ab <= {"libp2p_kad::kbucket::entry::Entry::new", "libp2p_kad::kbucket::entry::AbsentEntry::new"}, msg=str(sorted(ab)))
-    allowed_nodes = {"insert": {"std::vec::Vec::push", "std::vec::Vec::insert"}, "remove": {"std::vec::Vec::remove"},
-                     "apply_pending": {"std::vec::Vec::push", "std::vec::Vec::insert", "std::vec::Vec::remove"},
-                     "get_mut": {"<std::vec::Vec as std::ops::DerefMut>::deref_mut", "core::slice::iter_mut"}}
+    VP, VI, VR = "std::vec::Vec::push", "std::vec::Vec::insert", "std::vec::Vec::remove"
+    nodes_tab = {KBP + "insert": {VP, VI}, KBP + "remove": {VR}, KBP + "apply_pending": {VP, VI, VR},
+                 KBP + "get_mut": {"<std::vec::Vec as std::ops::DerefMut>::deref_mut", "core::slice::iter_mut"}}
+    fcp_tab = {KBP + "insert": {"w"}, KBP + "remove": {"w"}, KBP + "apply_pending": {"w"}}
     n = 0
     for b in prog.bodies(K):
         if "kbucket" not in b.npath:
             continue
         root = lk.root_fn(prog, b)
-        fn = root.npath.split("::")[-1]
-        in_kb = root.npath.startswith(KBP)
+        if not root.npath.startswith(KBP):
+            continue
         for f in (F.nodes, F.fcp):
             for s, k, t in lk.field_effects(b, f):
-                if not in_kb:
-                    continue
                 n += 1
                 if f == F.nodes:
-                    ok = k.startswith("call:") and k[5:] in allowed_nodes.get(fn, set())
-                    ctx.ob("who", "nodes mutated only by insert/remove/apply_pending (get_mut: element access)", ok, s.loc(), "%s in %s" % (k, b.short))
+                    ok = k.startswith("call:") and k[5:] in lk.allowed_kinds(prog, K, root, nodes_tab)
+                    ctx.ob("who", "nodes mutated only by insert/remove/apply_pending (get_mut: element access)", ok, s.loc(), "%s in %s (private helpers inherit what all their callers may do)" % (k, b.short))
                 else:
-                    ctx.ob("who", "first_connected_pos written only by insert/remove/apply_pending", fn in ("insert", "remove", "apply_pending"), s.loc(), "%s in %s" % (k, b.short))
+                    ctx.ob("who", "first_connected_pos written only by insert/remove/apply_pending", bool(lk.allowed_kinds(prog, K, root, fcp_tab)), s.loc(), "%s in %s" % (k, b.short))
     ctx.ob("who", "floor:mutation sites", n >= 15, nontrivial=False, msg=str(n))
     for ctor in ("new", "default"):
         pat = r"^libp2p_kad::kbucket::bucket::KBucket::new$" if ctor == "new" else r"kbucket::bucket::KBucket as std::default::Default>::default$"
@@ -651,11 +664,17 @@ def check_who(ctx, prog):
             ctx.ob("who", "KBucket::%s starts empty with no boundary and no pending node" % ctor, ok, s.loc(), str(f)[:260])
             if ctor == "new":
                 ctx.ob("who", "KBucket::new capacity = config.bucket_size", re.match(r"^#1\.\w+$", f.get(F.capacity, "")) is not None and f.get(F.nodes) == "std::vec::Vec::with_capacity(%s)" % f.get(F.capacity), s.loc(), str(f)[:260])
-    roots = sorted({lk.root_fn(prog, b).npath for b in prog.bodies(K) for s in b.agg_sites(r"^libp2p_kad::kbucket::BucketIndex$")})
-    want = sorted(["libp2p_kad::kbucket::BucketIndex::new", "libp2p_kad::kbucket::KBucketsTable::iter", "libp2p_kad::kbucket::ClosestBucketsIter::new",
-                   "libp2p_kad::kbucket::ClosestBucketsIter::next_in", "libp2p_kad::kbucket::ClosestBucketsIter::next_out",
-                   "libp2p_kad::<kbucket::ClosestBucketsIter as std::iter::Iterator>::next"])
-    ctx.ob("who", "BucketIndex constructed only in the audited functions (none derives an index for a key except BucketIndex::new)", roots == want, msg=str([x.split("kbucket::")[-1] for x in roots]))
+    named = {"libp2p_kad::kbucket::KBucketsTable::iter", "libp2p_kad::kbucket::ClosestBucketsIter::new", "libp2p_kad::<kbucket::ClosestBucketsIter as std::iter::Iterator>::next"}
+
+    def bi_allowed(r):
+        if r.npath in named:
+            return True
+        # the conversion Distance -> Option<BucketIndex> (BucketIndex::new), identified by its signature
+        return r.argc == 1 and re.search(r"Option<kbucket::BucketIndex>$", str(r.locals[0])) is not None and "Distance" in str(r.locals[1])
+    roots = {lk.root_fn(prog, b) for b in prog.bodies(K) if b.agg_sites(r"^libp2p_kad::kbucket::BucketIndex$")}
+    bad = sorted(r.npath for r in roots if not lk.allowed_fn(prog, K, r, bi_allowed))
+    ctx.ob("who", "BucketIndex constructed only in the audited functions (none derives an index for a key except BucketIndex::new)", not bad and len(roots) >= 4, msg="construction sites in %s; not permitted: %s" % (sorted(x.npath.split("kbucket::")[-1] for x in roots), bad))
+
 
 # thorough-tier sensitivity self-test (vrules/selftest.py): one-edit variants of the source that break the property
 MUTANTS = [
